@@ -1168,11 +1168,19 @@ def hash_args_eval(
         arg_value for arg_value in args[len(positional_names) :] if var_param_name not in config_args
     )
 
-    # Filter kwargs.
+    # Filter kwargs. Keywords that match no named parameter belong to the `**kwargs` parameter.
+    var_keyword_name = next(
+        (p.name for p in sig.parameters.values() if p.kind == inspect.Parameter.VAR_KEYWORD), None
+    )
+    named_params = {
+        p.name
+        for p in sig.parameters.values()
+        if p.kind not in (inspect.Parameter.VAR_POSITIONAL, inspect.Parameter.VAR_KEYWORD)
+    }
     kwargs2 = {
         arg_name: arg_value
         for arg_name, arg_value in kwargs.items()
-        if keep_arg(arg_name, arg_value)
+        if keep_arg(arg_name if arg_name in named_params else (var_keyword_name or arg_name), arg_value)
     }
 
     return hash_eval(type_registry, task.hash, args2, kwargs2)
